@@ -6,12 +6,13 @@ from harness.props import base
 
 PROP = {
     "id": "C05",
-    "quick_n": 260,
+    "quick_n": 400,
     "thorough_n": 6000,
     "rule": "one program = a history over a pool of up to 6 aggregators of one or two tree specs: "
             "fills over the critical values of the tree (every edge and its +-1,+-2 ulp neighbours, "
             "nan, +-inf; dyadic and non-dyadic configurations such as width 0.1, 1/3, offsets 1e16), "
-            "merges (+, +=), scalings, copies, zero; after every operation the invariant is evaluated "
+            "merges (+, +=), scalings, copies, zero - and, in every fourth program, vectorised fills "
+            "(weight arrays with zeros), JSON reloads and pickle clones; after every operation the invariant is evaluated "
             "on the implementation's public entries fields of every node; non-trivial = more than 3 "
             "ops; distinct by op list",
     "assumptions": ["sums are compared exactly on exact programs and with 1e-9 tolerance otherwise",
@@ -19,7 +20,72 @@ PROP = {
 }
 
 
+TIE_EXACT_ONLY = True
+
+
+def tie_applicable(p, exact):
+    """bit-for-bit against the model everywhere, except below a vectorised fill where the arithmetic
+    is inexact or Average/Deviate are involved (the kernels sum in another order)"""
+    if not any(o[0] == "fillnp" for o in p["ops"]):
+        return True
+    return exact and not base.has_kind(p["ops"][0][1], ["Average", "Deviate"])
+
+
+def gen_vectorised(r, i, tier):
+    """histories that also use fill.numpy, JSON reloads and pickle clones"""
+    dyadic = (i % 2 == 0)
+    g = gen.G(r, dyadic=dyadic, max_depth=3 if tier == "quick" else 4, vecbags=False)
+    for _ in range(30):
+        spec = g.spec(kind=r.choice(gen.NODES))
+        if any("q" in s_ for s_ in gen.walk(spec)):
+            break
+    ops = [("new", spec), ("new", spec)]
+    npool = 2
+    cats = ["a", "b", "zz", ""]
+
+    def rows(k):
+        rs = [d for d, _ in (base.small_stream(r, spec, k, [1.0], cats=cats) if dyadic else gen.stream(r, spec, k, [1.0], cats=cats))]
+        return [[(float(v) if not isinstance(v, (str, bool)) else float(v) if isinstance(v, bool) and j < 3 else v)
+                 for j, v in enumerate(d)] for d in rs]
+    frozen = set()      # pool entries without functions (JSON reloads and what is derived from them):
+    # fill.numpy on them raises whatever the batch, a row fill only for a positive weight
+
+    def derive(*src):
+        if any(x in frozen for x in src):
+            frozen.add(npool)
+    for _ in range(r.randint(4, 12 if tier == "quick" else 30)):
+        c = r.random()
+        if c < 0.35:
+            live = [k for k in range(npool) if k not in frozen]
+            rs = rows(r.randint(0, 6))
+            ops.append(("fillnp", r.choice(live), rs, [r.choice([1.0, 2.0, 0.5, 0.0, 0.25]) for _ in rs]))
+        elif c < 0.6:
+            ops.append(("fill", r.randrange(npool), rows(1)[0], r.choice(gen.WEIGHTS)))
+        elif c < 0.7:
+            a, b = r.randrange(npool), r.randrange(npool)
+            ops.append(("add", a, b)); derive(a, b); npool += 1
+        elif c < 0.78:
+            a, b = r.randrange(npool), r.randrange(npool)
+            ops.append(("iadd", a, b))
+        elif c < 0.84:
+            a = r.randrange(npool)
+            ops.append(("mul", a, r.choice([0.5, 2.0, 0.25, 3.0]))); derive(a); npool += 1
+        elif c < 0.9:
+            ops.append(("jsonrt", r.randrange(npool))); frozen.add(npool); npool += 1
+        elif c < 0.96:
+            a = r.randrange(npool)
+            ops.append(("clone", a)); derive(a); npool += 1
+        else:
+            a = r.randrange(npool)
+            ops.append(("copy", a)); derive(a); npool += 1
+        if npool >= 6:
+            break
+    return {"ops": ops, "meta": {"dyadic": dyadic, "vectorised": True}}
+
+
 def gen_one(r, i, tier):
+    if i % 4 == 3:
+        return gen_vectorised(r, i // 4, tier)
     dyadic = (i % 2 == 0)
     g = gen.G(r, dyadic=dyadic, max_depth=3 if tier == "quick" else 4)
     probe = (i % 4 == 1)
@@ -130,7 +196,7 @@ def inv(h, exact, path="root"):
     return out
 
 
-class Machine(hgm.Machine):
+class Machine(hgm.PruneMachine):
     """also evaluates the invariant on every pool entry after every op"""
 
     def __init__(self):
@@ -161,11 +227,11 @@ def oracle(p, run, exact):
     tainted = set()
     npool = 0
     for o, ob in zip(p["ops"], run["obs"]):
-        if o[0] in ("fill", "iadd") and ob and ob[0] == 1:
+        if o[0] in ("fill", "fillnp", "iadd") and ob and ob[0] == 1:
             tainted.add(o[1])
         if o[0] == "iadd" and o[2] in tainted:
             tainted.add(o[1])
-        if o[0] in ("new", "add", "mul", "zero", "copy"):
+        if o[0] in ("new", "add", "mul", "zero", "copy", "jsonrt", "clone"):
             if any(isinstance(x, int) and x in tainted for x in o[1:3] if not isinstance(x, (dict, float))):
                 if o[0] != "zero":
                     tainted.add(npool)
